@@ -40,8 +40,9 @@ What is proved:
 
 Outside this model, covered by the differential test and the oracle instead: **type preservation** ("the same
 or a more specific type") — the terms here are untyped — and the **in-place mutation** of `Variable` objects by
-the real implementation, which coincides with capture-free substitution only when no definition uses a
-parameter twice (finding D8 otherwise). Termination is not claimed: untyped terms such as `exOmega` have no
+the real implementation: it used to coincide with capture-free substitution only when no definition used a
+parameter twice (defect D8); since the repair (every occurrence of a parameter gets a copy of the argument) the
+differential test compares `primitive()` with `primitiveL` on all expressions. Termination is not claimed: untyped terms such as `exOmega` have no
 normal form and `nf` returns `none` on them for every fuel (shown below).
 -/
 namespace Tfv.C15
